@@ -561,7 +561,7 @@ class Interp:
         if isinstance(node, ast.Call) and isinstance(node.func, ast.Name) \
                 and node.func.id == "isinstance" and len(node.args) == 2:
             t = self.eval(node.args[0], env)
-            c = src(node.args[1])
+            c = src(node.args[1]).split(".")[-1]
             return self.decide(("isinstance", t, c))
         t = self.eval(node, env)
         return self.term_truth(t)
@@ -584,6 +584,12 @@ class Interp:
         a = self._prefix_suffix_atom(t) if t[0] == "call" else None
         if a is not None:
             return self.decide(a)
+        if t[0] == "call" and t[1] == ("global", "builtins.isinstance") \
+                and len(t[2]) == 2 and not t[3]:
+            # the value of isinstance(x, C) is the same observation as the
+            # test `if isinstance(x, C)`
+            return self.decide(("isinstance", t[2][0],
+                                fmt(t[2][1]).split(".")[-1]))
         if t[0] == "const":
             return bool(t[1])
         if t[0] == "get":
@@ -1824,11 +1830,24 @@ class Interp:
             # that names it
             if any(isinstance(x, ast.Subscript) and isinstance(x.ctx, ast.Load)
                    for x in ast.walk(s)):
+                # (the observation is named by the subscript's terms, not
+                # by the statement's spelling)
+                sub = next(x for x in ast.walk(s)
+                           if isinstance(x, ast.Subscript)
+                           and isinstance(x.ctx, ast.Load))
+                keep = len(self.path.effects)
+                try:
+                    what = ("index", self.eval(sub.value, dict(saved)),
+                            self.eval(sub.slice, dict(saved))
+                            if not isinstance(sub.slice, ast.Slice)
+                            else ("free", "slice"))
+                except (AnalysisError, _Raise, _Return, _Break, _Continue):
+                    what = ("free", "subscript in " + src(s)[:60])
+                del self.path.effects[keep:]
                 for h in st.handlers:
                     for cls in self._handler_names(h):
                         if cls in ("KeyError", "LookupError", "IndexError"):
-                            if self.decide(("raises", ("free", "subscript in "
-                                                       + src(s)[:60]), cls)):
+                            if self.decide(("raises", what, cls)):
                                 env.clear()
                                 env.update(saved)
                                 del self.path.effects[before:]
